@@ -1,6 +1,7 @@
 package world
 
 import (
+	"errors"
 	"fmt"
 	"io"
 	"os"
@@ -172,6 +173,31 @@ func (x *levelW) Write(p []byte) (int, error) { return x.sw.write(p) }
 func (x *levelW) Close() error                { return x.sw.close() }
 func (x *levelW) SetLevel(l slog.Level)       { x.sw.setLevel(l) }
 
+// syncW is a file-backed destination with a Sync method (what a library that flushes before it terminates looks
+// for); with fail set, Sync reports an I/O error after it has synced. No event is emitted for it: what counts for
+// the oracles is what was written, and whether the process then did what it had to do.
+type syncW struct {
+	sw   *simWriter
+	fail bool
+}
+
+func (x *syncW) Write(p []byte) (int, error) { return x.sw.write(p) }
+func (x *syncW) Close() error                { return x.sw.close() }
+func (x *syncW) Sync() error {
+	x.sw.w.yield(ySiteWriteExit)
+	if x.sw.file != nil {
+		_ = x.sw.file.Sync()
+	}
+	if x.fail {
+		x.sw.w.fired["syncerr"]++
+		return errSync
+	}
+	x.sw.w.fired["sync"]++
+	return nil
+}
+
+var errSync = errors.New("injected sync failure: input/output error")
+
 type levelPlainW struct{ sw *simWriter }
 
 func (x *levelPlainW) Write(p []byte) (int, error) { return x.sw.write(p) }
@@ -200,7 +226,7 @@ func (w *W) writer(id int, kind string) io.Writer {
 			kind = "plain"
 		}
 		sw = &simWriter{w: w, id: id, kind: kind}
-		if kind == "file" {
+		if kind == "file" || kind == "filesync" || kind == "filesyncfail" {
 			dir := w.sc.World.FileDir
 			if dir == "" {
 				dir = os.TempDir()
@@ -230,6 +256,10 @@ func makeIface(sw *simWriter) io.Writer {
 		return slog.NewLogWriter(&plainW{sw})
 	case "logwriter", "file":
 		return &closerW{sw}
+	case "filesync":
+		return &syncW{sw, false}
+	case "filesyncfail":
+		return &syncW{sw, true}
 	case "levelsettable":
 		return &levelW{sw}
 	case "levelplain":
